@@ -248,7 +248,8 @@ class PreloadsSim(purity.PuritySim):
             if tree[0] == "exc":
                 self.recovering.add(key)
             else:
-                self.tainted.add(target)
+                # the fallback value may now sit in the cache of the target or of anything it was built from
+                self.tainted.update(self.world.closure(self.world.specs, target))
                 self.probe("injected_solver_error_absorbed_by_fallback")
             self.log.append(ev="read", target=target, type=tn, q=label, outcome="fault:" + compare.digest(tree), fault="solver_fail")
             self.uncheck("read_during_solver_fault")
